@@ -22,6 +22,9 @@ pub trait Plain: Copy + Eq + Ord + Hash + Debug + Display + std::str::FromStr<Er
     fn b2(&self) -> &[u8];
     fn l1(&self) -> usize;
     fn l2(&self) -> usize;
+    /// the whole fixed-size arrays (block_hash_N_as_array)
+    fn arr1(&self) -> &[u8];
+    fn arr2(&self) -> &[u8];
     fn valid(&self) -> bool;
     fn str_(&self) -> String;
     fn into_string(self) -> String;
@@ -42,6 +45,23 @@ pub trait Plain: Copy + Eq + Ord + Hash + Debug + Display + std::str::FromStr<Er
 
     fn model(&self) -> Model {
         Model { log_bs: self.lb(), bh1: self.b1().to_vec(), bh2: self.b2().to_vec() }
+    }
+    /// Validity as the property states it, from what the accessors show: lengths within
+    /// capacity, symbols below 64, unused tail zero, normalized where the type says so.
+    fn ref_valid(&self) -> bool {
+        let (a1, a2, l1, l2) = (self.arr1(), self.arr2(), self.l1(), self.l2());
+        let part = |a: &[u8], l: usize, cap: usize| {
+            a.len() == cap
+                && l <= cap
+                && a[..l].iter().all(|&x| x < 64)
+                && a[l..].iter().all(|&x| x == 0)
+                && (!Self::NORM || crate::oracle::collapse(&a[..l]) == a[..l])
+        };
+        self.lb() < 31 && part(a1, l1, 64) && part(a2, l2, Self::CAP2) && self.b1() == &a1[..l1.min(64)] && self.b2() == &a2[..l2.min(a2.len())]
+    }
+    /// is_valid() as reported and as it should be; true when they agree on "valid"
+    fn valid_both(&self) -> bool {
+        self.valid() && self.ref_valid()
     }
     fn of(m: &Model) -> Self {
         Self::build(3u32 << m.log_bs, &m.bh1, &m.bh2)
@@ -81,6 +101,12 @@ macro_rules! impl_plain {
             }
             fn l2(&self) -> usize {
                 self.block_hash_2_len()
+            }
+            fn arr1(&self) -> &[u8] {
+                &self.block_hash_1_as_array()[..]
+            }
+            fn arr2(&self) -> &[u8] {
+                &self.block_hash_2_as_array()[..]
             }
             fn valid(&self) -> bool {
                 self.is_valid()
